@@ -17,6 +17,7 @@ claimed = {
  "C19": ("the C06 and C11 harnesses with the counter observation log: exactly one increment under the matching labels per emitted UserLogin, none for lines without a keyword", "§4 C19"),
  "C03": ("four concurrent programs (login || LOGIN record + event || events of another session || both cleanups) with symbolic PIDs; every interleaving at lock-acquisition granularity within a preemption bound; the observation must equal that of some sequential order, computed on fresh trackers; no delivery may block forever", "§4 C03"),
  "C07": ("'<pid> <pad><message>\\n' with symbolic bytes through the real named-pipe and syslog ingesters reaches the processor as exactly (pid, message); audit record lines with symbolic digits/tail parse identically with and without the newline through parseAuditLogs, go-libaudit's parser and reassembler", "§4 C07"),
+ "C08": ("the real cmd.RunNamedPipe (flag parsing, worker wiring, errgroup) executed in the engine with both pipes as FIFO models; seven failure causes (either pipe at end-of-stream, unparsable audit line, either path not a named pipe, termination signal idle / after traffic); the daemon function must return, with a non-nil error, in every explored schedule", "§4 C08, §10.4"),
  "C09": ("two sessions opened by one symbolic PID one after the other, each login line at any position, stray late records; map iteration order is a decision; ghost model per generation", "§4 C09"),
  "C13": ("nine blocking states (pipe waiting for a writer / idle / between records, audit ingester with a full channel of capacity 0,1,2 directly and through its pipe, login hand-off to a never-ready correlator, idle audit processor); cancellation after quiescence; every schedule within the preemption bound must let the worker return and deliver nothing afterwards", "§4 C13"),
  "C15": ("parseAuditLogs with go-libaudit's real parser and reassembler behind it: K lines (well-formed / empty / malformed at any position) yield one event per well-formed line in order or an error naming the line; two compound events in every interleaving of their records are grouped by sequence; Auditd.Read returns the correlator's and the parser's errors", "§4 C15"),
@@ -24,8 +25,8 @@ claimed = {
  "C20": ("sortLogNamesOldToNew on symbolic rotation suffixes; rotatingFile.read on an in-memory file system under append/fragment/newline/rotate/truncate histories with symbolic bytes", "§4 C20"),
 }
 pending = {}
-for p in ["C08", "C10"]:
-    pending[p] = "check under construction in this session (solver-based harness not yet registered)"
+for p in ["C10"]:
+    pending[p] = "torn/interleaved output lines depend on encoding/json issuing one Write per Encode and on O_APPEND atomicity in the kernel, neither of which the engine executes; the assembled-pipeline ordering needs aucoalesce (reflection-built tables) inside the engine; the processor-level half (event written before the login is handed over, one write per event) is decided under C05"
 checks = []
 for pid in sorted(claimed):
     text, ref = claimed[pid]
